@@ -178,6 +178,14 @@ func TestRoundTrip(t *testing.T) {
 	}
 	ctx := context.Background()
 	for i := 0; i < n; i++ {
+		if i > 0 && i%40 == 0 {
+			// a fresh database now and then: every put rewrites the whole file, so one ever-growing database
+			// would make the run quadratic without exercising anything new
+			s.stop()
+			s = &sys{dir: filepath.Join(dir, fmt.Sprintf("srv-%d", i))}
+			os.MkdirAll(s.dir, 0o700)
+			s.start(t)
+		}
 		what, val := genValue(r, i, maxLarge)
 		name := fmt.Sprintf("rt/secret-%d", i)
 		total += len(val)
